@@ -24,6 +24,7 @@ ASSUMPTIONS = ["E2 small-curve retargeting (see C03)", "vf/ref/bip340_ref.py tra
 OBLIGATIONS = {
     "concurrent_calls": "interleavings of two concurrent calls (single-case checks in two threads, cold and after warm-up calls)",
     "hashed_length_at_chunk_boundary": "a message whose hashed length is at / next to a multiple of a common chunk size (up to 2 MiB)",
+    "long_history": "operations executed in one long history (every key of a 199-element group, forward / forward / reverse)",
     "history_sequences": "operation sequences (non-initial process states) explored",
     "concurrent_first_calls": "interleavings of two concurrent first BIP340 calls explored",
     "e_zero": "a triple with challenge e = 0 (mod n) was signed or verified",
@@ -176,6 +177,32 @@ def run_case(kind, case):
     return CASES[kind](case)
 
 
+def long_ops(job):
+    """a valid verification under EVERY x-only public key of the p=211 curve; then a NOT-on-curve key presented with each of
+    those signatures, twice; (the generic driver then repeats everything forward and in reverse)"""
+    cv = job["curve"]
+    C = smallcurve.curve(cv)
+    msg = b"long"
+    ops, sigs = [], []
+    seen = set()
+    for d in range(1, C.n):
+        sk = d.to_bytes(32, "big")
+        pk = B.pubkey_gen(C, sk)
+        if pk in seen:
+            continue
+        seen.add(pk)
+        sig = next((s_ for s_ in (B.sign(C, sk, msg, bytes([a]) * 32) for a in range(64)) if s_), None)
+        if sig is None:
+            continue
+        sigs.append(sig)
+        ops.append(("verify", {"curve": cv, "pk": pk.hex(), "msg": msg.hex(), "sig": sig.hex(), "what": f"valid, key {d}"}))
+    bad = next(x for x in range(1, C.p) if C.lift_x(x) is None).to_bytes(32, "big")
+    for rep in range(2):
+        for sig in sigs:
+            ops.append(("verify", {"curve": cv, "pk": bad.hex(), "msg": msg.hex(), "sig": sig.hex(), "what": f"x not on the curve, presentation {rep + 1}", "rep": rep}))
+    return ops
+
+
 def seq_ops(job):
     """pubkey() / sign() / verify() in every order for an odd-y and an even-y key, valid and wrong-length verifications"""
     if job.get("name", "").startswith("seqreal"):
@@ -245,6 +272,8 @@ def jobs(tier, seed):
     from vf.runner import seq_jobs
     js += seq_jobs(4, curve=list(T[0]), weight=4)
     js += seq_jobs(2, weight=6, name="seqreal")
+    from vf.runner import long_jobs
+    js += long_jobs(curve=list(T[5]))
     for sh in range(4):
         js.append({"name": f"secp/longmsg/{sh}", "part": "real-longmsg", "shard": [sh, 4], "weight": 6})
     from vf.runner import concur_jobs
@@ -260,6 +289,9 @@ def run_job(job):
         ops = seq_ops(dict(job, shard=[0, 1]))
         scens = [{"threads": [ops[i] for i in sc[0]], "warm": [ops[i] for i in sc[1]], "post": [ops[i] for i in (sc[2] if len(sc) > 2 else ())]} for sc in CONCUR_SCEN]
         return run_concur_job(job, scens, run_case, PROPERTY, CONCUR_FILES)
+    if job["part"] == "longhist":
+        from vf.runner import run_long_job
+        return run_long_job(job, long_ops(job), run_case)
     if job["part"] == "seq":
         from vf.runner import run_seq_job
         return run_seq_job(job, seq_ops(job), run_case)
